@@ -426,7 +426,7 @@ def print_el_head(e, ind):
         else:
             items.append("class: #{%s}" % ", ".join(x.go for x in e["class_attr"][1]))
     if e["attrs_cmd"]:
-        items.append("@attributes: #{%s}" % ", ".join(e["attrs_cmd"]))
+        items.append("@attributes: #{%s}" % ", ".join(m.go if isinstance(m, X) else m for m in e["attrs_cmd"]))
     if items:
         if e["layout"] == "multi":
             s += "{\n" + "".join(ind + "\t" + it + ",\n" for it in items) + ind + "}"
@@ -677,7 +677,15 @@ class Denote:
         if e["attrs_cmd"]:
             entries = []
             for m in e["attrs_cmd"]:
-                if m == "E.M":
+                if isinstance(m, X):
+                    d = m.ev(env, loc)
+                    for k, v in d.items():
+                        if isinstance(v, bool):
+                            if v:
+                                entries.append(esc(k))
+                        elif v != "":
+                            entries.append('%s="%s"' % (esc(k), esc(v)))
+                elif m == "E.M":
                     entries += ['%s="%s"' % (esc(k), esc(v)) for k, v in env["M"].items() if v != ""]
                 else:
                     entries += [esc(k) for k, v in env["MB"].items() if v]
